@@ -54,6 +54,13 @@ class C18(InterpProp):
                         [['box', {'list': [0]}], ['delay', rnd.randint(1, 3)]]
         enc = ChartEnc(sc)
         ops = [['create', 0, False, [], 0], ['create', 0, False, [], 0]]
+        watch = rnd.random() < 0.2
+        if watch:
+            # a bound property statechart whose verdict depends on time (it fails when a state stays active too
+            # long): it is part of the interpreter and is copied with it (implementation only)
+            st = rnd.choice([n for n in sc.states if n != sc.root] or [sc.root])
+            d = rnd.randint(1, 3)
+            ops += [['bindwatch', 0, st, d], ['bindwatch', 1, st, d]]
         groups = []
         subjects = [0]          # slots holding the interpreter under test and the copies that go on beside it
         side_by_side = box or rnd.random() < 0.2
@@ -76,7 +83,7 @@ class C18(InterpProp):
                 grp.append(len(ops) - 1)
             groups.append(grp)
         payload = {'kind': 'interp', 'charts': [enc.json], 'ops': ops, 'groups': groups}
-        return Case(payload, {'charts': [sc]}, model_ok=enc.supported and len(subjects) == 1 and not box)
+        return Case(payload, {'charts': [sc]}, model_ok=enc.supported and len(subjects) == 1 and not box and not watch)
 
     def shrink_candidates(self, case):
         p = case.payload
@@ -132,6 +139,9 @@ class C18(InterpProp):
                         if '__old__' in lst[e[3]]:
                             res.features.add('old-after-snapshot')
                             res.nontrivial = True
+                if r.get('outcome') == 'error' and r['err']['class'] == 'PropertyStatechartError':
+                    res.features.add('time-property-failed-after-snapshot')
+                    res.nontrivial = True
                 if r.get('outcome') == 'step':
                     for m in r['step']['steps']:
                         if m['transition'] is None and any(oracles.is_hist(sc.state_for(s)) for s in m['exited']):
